@@ -47,12 +47,12 @@ theorem eraseRanks_sublist (a b r : Nat) (l : List (Bytes × Bool)) : (eraseRank
   | cons e t ih =>
     obtain ⟨p, f⟩ := e
     cases f with
-    | false => simp only [eraseRanks]; exact (ih r).cons₂ _
+    | false => simp only [eraseRanks]; exact (ih r).cons_cons _
     | true =>
       simp only [eraseRanks]
       split
       · exact (ih (r + 1)).cons _
-      · exact (ih (r + 1)).cons₂ _
+      · exact (ih (r + 1)).cons_cons _
 
 theorem eraseRanks_filter (a b r : Nat) (l : List (Bytes × Bool)) :
     (eraseRanks a b r l).filter (fun x => !x.2) = l.filter (fun x => !x.2) := by
